@@ -61,7 +61,9 @@ def impl_sort_maps(lm):
     except ValueError as e:
         if "uniquely sort duplicate points" in str(e):
             return "raise"
-        raise
+        return f"exception:{type(e).__name__}"
+    except Exception as e:   # noqa: BLE001  an implementation error is an observable, not an infrastructure problem
+        return f"exception:{type(e).__name__}"
     pmap = [int(x) for x in out["pf"][0]["v"]]
     cid = {f["ctype"]: [int(x) for x in f["v"]] for f in out["cf"]}
     return _show_maps(pmap, [(t, cid[t], rows) for t, rows in out["cells"]])
@@ -83,7 +85,9 @@ def impl_sorted(lm):
     except ValueError as e:
         if "uniquely sort duplicate points" in str(e):
             return "raise"
-        raise
+        return f"exception:{type(e).__name__}"
+    except Exception as e:   # noqa: BLE001
+        return f"exception:{type(e).__name__}"
 
 
 def _field_keys(lm):
@@ -109,7 +113,9 @@ def impl_compare(src, ref, flags=(False, False, False)):
     except ValueError as e:
         if "uniquely sort duplicate points" in str(e):
             return "raised", len(msgs)
-        raise
+        return f"exception:{type(e).__name__}", len(msgs)
+    except Exception as e:   # noqa: BLE001  an implementation error is an observable, not an infrastructure problem
+        return f"exception:{type(e).__name__}", len(msgs)
     dom = bool(suite.domain_equality_check)
     st = sorted(f"{keys.get(c.name, c.name + '/?')}~{c.status.name}" for c in suite)
     return f"{int(dom)}:{','.join(st)}", len([m for m in msgs if "Retrying" in m])
@@ -124,7 +130,7 @@ def canon_model_outcome(s):
 
 
 def passes(obs):
-    if obs == "raised":
+    if obs == "raised" or obs.startswith("exception:"):
         return False
     d, st = obs.split(":", 1)
     return d == "1" and all(x.endswith("~passed") for x in st.split(",") if x)
@@ -137,7 +143,10 @@ def impl_cli_exit(src, ref, tmpdir, tag):
     a = write(meshgen.to_fc(src), os.path.join(tmpdir, f"{tag}_src"))
     b = write(meshgen.to_fc(ref), os.path.join(tmpdir, f"{tag}_ref"))
     with _quiet(), contextlib.redirect_stderr(io.StringIO()):
-        return int(main(["file", a, b], logger=CLILogger(verbosity_level=0, output_stream=io.StringIO())))
+        try:
+            return int(main(["file", a, b], logger=CLILogger(verbosity_level=0, output_stream=io.StringIO())))
+        except Exception as e:   # noqa: BLE001
+            return f"exception:{type(e).__name__}"
 
 
 # ---------------------------------------------------------------- generators
@@ -445,7 +454,7 @@ def sort_checks(ctx, pairs):
                  sample={"case": {"kind": "canon", "a": A, "b": B}, "lean": ra} if i < 2 else None)
         if noise == 0.0 and (hyp or not ctx.driver_ok):
             sa, sb = impl_sorted(A), impl_sorted(B)
-            if sa != sb and ctx.driver_ok:
+            if (sa != sb or isinstance(sa, str)) and ctx.driver_ok:
                 ctx.violation({"kind": "canon", "a": A, "b": B}, _diff(sa, sb), "identical sorted representations",
                               what="sort(A) and sort(relabel A) differ (noise-free, Sep holds)")
 
@@ -459,8 +468,8 @@ def _key(lm):
 
 
 def _diff(sa, sb):
-    if sa == "raise" or sb == "raise":
-        return {"a": sa if sa == "raise" else "ok", "b": sb if sb == "raise" else "ok"}
+    if isinstance(sa, str) or isinstance(sb, str):
+        return {"a": sa if isinstance(sa, str) else "ok", "b": sb if isinstance(sb, str) else "ok"}
     return {k: "differs" for k in sa if sa[k] != sb[k]}
 
 
